@@ -90,14 +90,19 @@ def planarCheck (evs : Array SubEv) (a b : MPoly) (tol : Rat) (full : Bool) : Op
     let chainOk (e : Seg) (subj : Bool) : Bool :=
       let (l, r) := if ptBefore e.1 e.2 then (e.1, e.2) else (e.2, e.1)
       let pieces := subs.filter (fun v => v.subj == subj && nearSeg v.point e tol && nearSeg (v.other.getD v.point) e tol)
-      let rec walk : Nat → Pt → Bool
-        | 0, _ => false
-        | fuel + 1, cur =>
+      -- pieces are followed in either direction (rounding can turn a piece of a nearly vertical edge
+      -- around); each piece is used once
+      let rec walk : Nat → Pt → List Nat → Bool
+        | 0, _, _ => false
+        | fuel + 1, cur, used =>
           if cur = r then true else
-          match pieces.find? (fun v => v.point = cur && v.other ≠ some cur) with
-          | some v => walk fuel (v.other.getD cur)
+          match (List.range pieces.size).find? (fun i =>
+              !used.contains i && (pieces[i]!.point = cur || pieces[i]!.other = some cur)) with
+          | some i =>
+            let v := pieces[i]!
+            walk fuel (if v.point = cur then v.other.getD cur else v.point) (i :: used)
           | none => false
-      walk (pieces.size + 1) l
+      walk (pieces.size + 1) l []
     if (inputEdges a).any (fun e => !chainOk e true) then some "a subject edge is not covered by a chain of its sub-segments" else
     if (inputEdges b).any (fun e => !chainOk e false) then some "a clipping edge is not covered by a chain of its sub-segments" else
     none
@@ -139,6 +144,9 @@ def flagsCheck (evs : Array SubEv) (a b : MPoly) (op : Op) (tol : Rat) : FlagRep
       if du ≤ tol || -dd ≤ tol then { rep with unclear := rep.unclear + 1 } else
       let pa : Pt := { x := m.x, y := m.y + du }
       let pb : Pt := { x := m.x, y := m.y + dd }
+      let crowded := tol > 0 && (inputEdges a ++ inputEdges b).any (fun e =>
+        decide (dist2PtSeg pa e ≤ tol * tol) || decide (dist2PtSeg pb e ≤ tol * tol))
+      if crowded then { rep with unclear := rep.unclear + 1 } else
       let own := if s.subj then a else b
       let oth := if s.subj then b else a
       let res (q : Pt) : Bool := opSem op (memEO a q) (memEO b q)
@@ -159,9 +167,12 @@ def flagsCheck (evs : Array SubEv) (a b : MPoly) (op : Op) (tol : Rat) : FlagRep
         | none => false
         | some p =>
           let pg := p.seg
+          -- a result edge, not vertical, that entered the sweep line before `s`; the link may be
+          -- inherited through non-result edges, so the recorded edge may already have ended: where
+          -- it still spans the start of `s` it must pass below it
           p.left && p.rt != .none && pg.1.x ≠ pg.2.x &&
-          decide (rmin pg.1.x pg.2.x ≤ sg.1.x) && decide (sg.1.x ≤ rmax pg.1.x pg.2.x) &&
-          decide (yAt pg sg.1.x ≤ sg.1.y + tol)
+          decide (rmin pg.1.x pg.2.x ≤ sg.1.x) &&
+          (if sg.1.x ≤ rmax pg.1.x pg.2.x then decide (yAt pg sg.1.x ≤ sg.1.y + tol) else true)
       if !prevOk then fail "prev_in_result is not a result edge below" else
       { rep with checked := rep.checked + 1 }) {}
 
